@@ -160,6 +160,23 @@ Theorem C01_prec_decl_stmt_parses :
 Proof. exact decl_stmt_parses. Qed.
 Print Assumptions C01_prec_decl_stmt_parses.
 
+(* end to end through the statement wrapper, the call statement (no parentheses):
+   f a1 ... an NL  with arguments that are derivations of the grammar (nested
+   arbitrarily, calls / array / map literals included), separated by whitespace
+   and rendered tight, is parsed to the call of f on the arguments' trees, all
+   tokens consumed, the cursor at the end of line, no error *)
+Theorem C01_prec_call_stmt_parses :
+  forall E f args wz fuel,
+  no_tyerr E -> func_of E f = Some false -> arity_wrong E f (List.length args) = false ->
+  (forall a, In a args -> Lay 0 a) -> args_ok E (atoms_ok E) wz args ->
+  forallb (fun a => layout_ok a && tight_ok a) args = true ->
+  let toks := ident_tok f :: wsl (seq_flag args wz) ++ render_seq render args wz ++ [mk T_NL] in
+  2 * List.length toks <= fuel ->
+  exists st', parse_stmt_expr E fuel 0 toks = Some (Some (TCall f (map tree_of args)), st') /\
+              rest st' = [mk T_NL] /\ is_at_eol st' = true /\ errs st' = [].
+Proof. exact call_stmt_parses. Qed.
+Print Assumptions C01_prec_call_stmt_parses.
+
 (* ---------- the parseSlice defect (fixed in /repo by commit 16971a1; e_fix_slice = false is the code before it) ---------- *)
 Definition env_code : env :=
   {| e_funcs := [(s_ "print", false)]; e_vars := [s_ "arr"; s_ "a"; s_ "b"; s_ "c"];
@@ -393,3 +410,16 @@ Example C01_prec_ex_map_parse :
     TIndex (TDot (TMap [(s_ "a", TNum (s_ "1")); (s_ "b", TArr [TNum (s_ "2"); TGroup (TCall (s_ "g") [TNum (s_ "3")])])]) (s_ "b"))
            (TNum (s_ "0")).
 Proof. vm_compute. repeat split; reflexivity. Qed.
+
+(* the hypotheses of C01_prec_call_stmt_parses are satisfiable:  print (f a[0] -b)*[1 (g 2)][0] {a:1 b:[2 (g 3)]}.b[0]  *)
+Example C01_prec_ex_call_stmt_hyps :
+  let args := [ex_cl false; ex_map false] in
+  func_of env_calls (s_ "print") = Some false /\ arity_wrong env_calls (s_ "print") (List.length args) = false /\
+  (forall a, In a args -> Lay 0 a) /\ args_ok env_calls (atoms_ok env_calls) false args /\
+  forallb (fun a => layout_ok a && tight_ok a) args = true.
+Proof.
+  split; [reflexivity|split; [reflexivity|split; [|split]]].
+  - intros a [<-|[<-|[]]]; [exact (proj1 (C01_prec_ex_call_lay false))|exact (proj1 (C01_prec_ex_map_lay false))].
+  - vm_compute; repeat split; intros; try discriminate; auto.
+  - reflexivity.
+Qed.
